@@ -201,7 +201,7 @@ func c16PathList(paths map[int]string) []string {
 }
 
 func c16Run(c *core.Ctx) {
-	processWarmup()
+	processWarmup(c)
 	report := func(clause, k, d, src string, paths map[int]string, mi int, size int, class string) {
 		if k == "" || !c.ShrinkOK(clause+k) {
 			return
